@@ -327,8 +327,12 @@ pub fn c08() -> i32 {
         let small = structured_payloads();
         for r1 in [1, 4] {
             for r2 in [5, 8] {
-                let f1 = forgeries(&inputs.iter().rev().find(|p| p.0 <= r1).unwrap().1, 2, &small[..9]);
-                let f2 = forgeries(&inputs.iter().rev().find(|p| p.0 <= r2).unwrap().1, 2, &small[..9]);
+                // (the variant that appends frames to a packet whose own frames are still new is
+                // left out here as in the single-injection grid: its authentic part arrives early)
+                let mut f1 = forgeries(&inputs.iter().rev().find(|p| p.0 <= r1).unwrap().1, 2, &small[..9]);
+                let mut f2 = forgeries(&inputs.iter().rev().find(|p| p.0 <= r2).unwrap().1, 2, &small[..9]);
+                f1.retain(|f| f.0 != "extra-frames-of-size-s+1");
+                f2.retain(|f| f.0 != "extra-frames-of-size-s+1");
                 for (w1, m1) in &f1 {
                     for (w2, m2) in &f2 {
                         let mut s = base.clone();
